@@ -66,6 +66,7 @@ inductive CTerm where
   | delay (th : Script) (body : CTerm)
   | combine (a b : CTerm)
   | loop (c : Option CCond) (p : Option Script) (body : CTerm)
+  | ite (c : CCond) (a b : CTerm)   -- Delay(func() Seq { if c() { return a }; return b }): a state-dependent branch
 deriving Repr
 
 def CCond.fn (c : CCond) (st : Store) : CondR String × Store :=
@@ -98,5 +99,12 @@ def build : CTerm → Store → Term Store Int String
         (fun st' => th.store "t" 0 st')
   | .combine a b, st => .combine (build a st) (build b st)
   | .loop c p body, st => .loop (c.map CCond.fn) (p.map postFn) (build body st)
+  | .ite c a b, _ =>
+      .delay
+        (fun st' => match c.fn st' with
+          | (.panic p, _) => .panic p
+          | (.t, st'') => build a st''
+          | (.f, st'') => build b st'')
+        (fun st' => (c.fn st').2)
 
 end GoCo
